@@ -146,6 +146,14 @@ func (g *c05gen) val(v fix) {
 	}
 	d0 := g.depth
 	junk := func() fix {
+		if r.IntN(16) == 0 {
+			// the ends of the number encodings
+			ends := []fix{32767 * fixOne, -32768 * fixOne, 1131 * fixOne, -1131 * fixOne, 1132 * fixOne, -1132 * fixOne, 107 * fixOne, -107 * fixOne, 108 * fixOne, -108 * fixOne}
+			if g.allowFrac {
+				ends = append(ends, 1<<31-1, -(1 << 31), 1, -1)
+			}
+			return ends[r.IntN(len(ends))]
+		}
 		if g.allowFrac && r.IntN(3) == 0 {
 			return fix(r.IntN(2000*65536)) - 1000*fixOne
 		}
